@@ -78,7 +78,7 @@ func GenSpec(t *simrt.Tape, opts GenOpts) *Spec {
 	b := &builder{t: t, opts: opts}
 	mode := "valid"
 	if opts.AllowInvalid && t.Chance(1, 4) {
-		mode = []string{"undefined_token", "duplicate_def", "duplicate_value", "missing_start", "undefined_nonterm", "syntax_delete", "syntax_insert", "unknown_predef"}[t.Pick(8)]
+		mode = []string{"undefined_token", "duplicate_def", "duplicate_value", "missing_start", "undefined_nonterm", "syntax_delete", "syntax_insert", "unknown_predef", "literal_equals_token_value", "literal_equals_token_value"}[t.Pick(10)]
 	} else {
 		t.Draw(1)
 	}
@@ -216,6 +216,11 @@ func GenSpec(t *simrt.Tape, opts GenOpts) *Spec {
 	case "undefined_nonterm":
 		r := []Tok{{Kind: "IDENT", Text: "start"}, {Kind: "=", Text: "="}, {Kind: "IDENT", Text: "nowhere"}, {Kind: ";", Text: ";"}}
 		ruleDecls = append(ruleDecls, r)
+	case "literal_equals_token_value":
+		// a named token whose value is also used as a literal in a rule (two definitions, one without a position)
+		lit := litPool[t.Pick(len(litPool))]
+		tokDecls = append(tokDecls, []Tok{{Kind: "TOKEN", Text: "LV"}, {Kind: "=", Text: "="}, {Kind: "STRING", Text: lit}, {Kind: ";", Text: ";", Removable: true}})
+		ruleDecls = append(ruleDecls, []Tok{{Kind: "IDENT", Text: "start"}, {Kind: "=", Text: "="}, {Kind: "STRING", Text: lit}, {Kind: "TOKEN", Text: "LV"}, {Kind: ";", Text: ";"}})
 	case "unknown_predef":
 		tokDecls = append(tokDecls, []Tok{{Kind: "TOKEN", Text: "UP"}, {Kind: "=", Text: "="}, {Kind: "PREDEF", Text: "$NOPE"}, {Kind: ";", Text: ";", Removable: true}})
 	}
